@@ -669,7 +669,7 @@ fn main() -> std::process::ExitCode {
         "C05",
         "7 translators x 2 unsupported-instruction policies x byte strings (uniform random; x86: prefix/REX/opcode/ModRM/SIB/disp/imm layouts incl. the 0F maps; fixed-width ISAs: 1-4 words with the primary-opcode field steered to every decoded class, truncated strings) x load addresses {ordinary, 0, 2^32-8, 2^63, top of the address space, random}; result must be Err or IL accepted by the harness' validity walker with exactly one enabled guard per block / successor list under >=64 valuations; non-trivial = Ok with >=1 instruction graph; distinct = (translator, policy, opcode class of the first instruction, number of graphs)",
         Box::new(|_t: Tier| from_tape(96, decode)),
-        |t| t.pick(2_800_000, 200_000_000),
+        |t| t.pick(10_000_000, 300_000_000),
         check,
     );
     spec.render = render;
